@@ -205,6 +205,34 @@ pub fn run_batch(w: &World, sc: &J, out: &mut dyn Write) {
     } else {
         "skip".to_string()
     };
+    // guards combined by hand in the two usual ways, then checked once: g0 + r g1 + r^2 g2 + ... built by scaling the
+    // newcomer ("power") and by scaling the accumulator ("horner")
+    let comb_res = if mismatch == "none" && !ms.is_empty() && guards.iter().all(|g| g.is_ok()) {
+        let gs: Vec<DualMSM<Bls12>> = guards.iter().map(|g| g.clone().unwrap()).collect();
+        let rr = F::from(0x1234_5678_9abc_def1u64);
+        let power = guard(|| {
+            let mut acc = gs[0].clone();
+            let mut rp = rr;
+            for g in gs.iter().skip(1) {
+                let mut g = g.clone();
+                g.scale(rp);
+                acc.add_msm(g);
+                rp *= rr;
+            }
+            if acc.check(&vp) { Ok(()) } else { Err("rejected") }
+        });
+        let horner = guard(|| {
+            let mut acc = gs[0].clone();
+            for g in gs.iter().skip(1) {
+                acc.scale(rr);
+                acc.add_msm(g.clone());
+            }
+            if acc.check(&vp) { Ok(()) } else { Err("rejected") }
+        });
+        json!({"power": cls(&power), "horner": cls(&horner)})
+    } else {
+        json!({"power": "skip", "horner": "skip"})
+    };
     // Accumulator: from_dual_msm per member (own vk name), accumulate, check, collapse, check
     let acc_res = if mismatch == "none" && !ms.is_empty() && guards.iter().all(|g| g.is_ok()) {
         let r = catch_unwind(AssertUnwindSafe(|| {
@@ -242,7 +270,7 @@ pub fn run_batch(w: &World, sc: &J, out: &mut dyn Write) {
         "{}",
         json!({"ev":"Batch","members":names,"mismatch":mismatch,"singles":singles,"res":cls(&r),
                "detail": format!("{r:?}").chars().take(160).collect::<String>(),
-               "racc":racc,"bound_after_summary":bound_after_summary,"guard_res":gres,"acc":acc_res})
+               "racc":racc,"bound_after_summary":bound_after_summary,"guard_res":gres,"combined":comb_res,"acc":acc_res})
     )
     .unwrap();
 }
